@@ -14,7 +14,7 @@ use serde_json::{json, Value};
 pub const DEF: PropDef = PropDef {
     id: "C17",
     level: "exploration",
-    rule: "all expression trees (built directly as AST values, so every tree shape incl. those text cannot spell) with <=3 leaves over the full leaf alphabet {0,1,2.5,3,1e308, four strings (plain, empty, with CR LF and line feed, with tab / backslash / non-ASCII / outer blanks), true, null, mysterious, variable, pronoun, subscript, call, roll, and roll / subscript applied to literals} and constructors {+ - * / with single and 2-element list operands, <, is, and, unary - and not on leaves, singly and doubled}, and all trees with <=4 leaves over the numeric core {0,1,2.5,1e308,x,-1,-x} (thorough: also 5 leaves over {0,2.5,x}) with + - * / and list operands, and all trees with <=3 leaves over 12 boundary constants {0,-0,1,0.1,3,5e-324,2^32,2^53+1,f64::MAX,1e-308,-(0),x}; plus poetic literals as assignment right-hand sides; each expression is given to NumericConstantFolder and SimpleStringConstantFolder and evaluated by the real ProduceVal under three preludes that bind the variables differently; oracle: folder Ok(v) => evaluation yields exactly v (bitwise, NaN by class) under every prelude; folder must be Ok for every tree made only of number leaves, unary minus and + - * /; must be Err for every tree containing a read; non-trivial = expressions with an operator; distinct = distinct tree",
+    rule: "all expression trees (built directly as AST values, so every tree shape incl. those text cannot spell) with <=3 leaves over the full leaf alphabet {0,1,2.5,3,1e308, four strings (plain, empty, with CR LF and line feed, with tab / backslash / non-ASCII / outer blanks), true, null, mysterious, variable, pronoun, subscript, call, roll, and roll / subscript applied to literals} and constructors {+ - * / with single and 2-element list operands, <, is, and, unary - and not on leaves, singly and doubled}, and all trees with <=4 leaves over the numeric core {0,1,2.5,1e308,x,-1,-x} (thorough: also 5 leaves over {0,2.5,x}) with + - * / and list operands, and all trees with <=3 leaves over 13 boundary constants {0,-0,1,0.1,3,5e-324,2^32,2^53+1,f64::MAX,1e-308,-(0),x,inf}; plus poetic literals as assignment right-hand sides; each expression is given to NumericConstantFolder and SimpleStringConstantFolder and evaluated by the real ProduceVal under three preludes that bind the variables differently; oracle: folder Ok(v) => evaluation yields exactly v (bitwise, NaN by class) under every prelude; folder must be Ok for every tree made only of number leaves, unary minus and + - * /; must be Err for every tree containing a read; non-trivial = expressions with an operator; distinct = distinct tree",
     assumptions: &["evaluation through the public ProduceVal visitor on an environment prepared by executing the prelude", "the reference predicate 'constant' / 'contains a read' is syntactic on the tree"],
     build,
     exhaustive: true,
@@ -114,8 +114,9 @@ pub struct C17 {
 fn build(tier: Tier) -> Box<dyn Check> {
     let core = vec![num(0.0), num(1.0), num(2.5), num(1e308), Expr::Prim(var("x")), Expr::Un(UnOp::Neg, Box::new(num(1.0))), Expr::Un(UnOp::Neg, Box::new(Expr::Prim(var("x"))))];
     // boundary constants: negative zero (as a literal the text cannot spell), a value that is not a binary
-    // fraction, the smallest denormal, integers beyond 2^32 and 2^53, the largest finite number
-    let wide = vec![num(0.0), num(-0.0), num(1.0), num(0.1), num(3.0), num(5e-324), num(4294967296.0), num(9007199254740993.0), num(f64::MAX), num(1e-308), Expr::Un(UnOp::Neg, Box::new(num(0.0))), Expr::Prim(var("x"))];
+    // fraction, the smallest denormal, integers beyond 2^32 and 2^53, the largest finite number, and the infinite
+    // literal that a numeral such as 1e999 denotes
+    let wide = vec![num(0.0), num(-0.0), num(1.0), num(0.1), num(3.0), num(5e-324), num(4294967296.0), num(9007199254740993.0), num(f64::MAX), num(1e-308), Expr::Un(UnOp::Neg, Box::new(num(0.0))), Expr::Prim(var("x")), num(f64::INFINITY)];
     let mut fams = vec![("full-alphabet".to_string(), full_space()), ("numeric-core".to_string(), numeric_space(core, 4)), ("boundary-constants".to_string(), numeric_space(wide, 3))];
     if tier == Tier::Thorough {
         fams.push(("numeric-core-5-leaves".to_string(), numeric_space(vec![num(0.0), num(2.5), Expr::Prim(var("x"))], 5)));
